@@ -159,8 +159,16 @@ def canon_impl(line):
     return strip_hash(line)
 
 
+M64 = (1 << 64) - 1
+
+
 def pbyte(pid, i):
-    return 1 + ((pid * 7 + i * 13 + (i >> 8) * 3 + (pid >> 8) * 5) % 255)
+    """must equal harness/wh/src/engine.rs::pbyte"""
+    x = (pid * 0x9E3779B97F4A7C15 + i * 0xBF58476D1CE4E5B9) & M64
+    x ^= x >> 29
+    x = (x * 0x94D049BB133111EB) & M64
+    x ^= x >> 32
+    return 1 + x % 255
 
 
 def fnv32(data):
@@ -183,6 +191,23 @@ def entries_equal(impl_tok, model_tok):
     if ln > 1 << 20:
         return False
     return "%08x" % fnv32(bytes(pbyte(pid, skip + j) for j in range(ln))) == pi[4]
+
+
+def adopt_model_tokens(impl, model):
+    """Returned bytes are mapped back to (pid, skip) by content, which is ambiguous for very
+    short front-trimmed payloads.  Where the model's (pid, skip, len) has exactly the bytes the
+    implementation returned (hash equal), use the model's naming for the acceptor."""
+    def one(a, b):
+        return b if (a.startswith("e:") and b.startswith("e:") and entries_equal(a, b)) else strip_hash(a)
+    if impl.startswith("[") and model.startswith("["):
+        a = impl[1:-1].split(";") if len(impl) > 2 else []
+        b = model[1:-1].split(";") if len(model) > 2 else []
+        if len(a) == len(b):
+            return "[" + ";".join(one(x, y) for x, y in zip(a, b)) + "]"
+        return canon_impl(impl)
+    if impl.startswith("e:") and model.startswith("e:"):
+        return one(impl, model)
+    return canon_impl(impl)
 
 
 def lines_equal(impl, model):
